@@ -148,6 +148,13 @@ def Bc.isTidy : Bc → Bool | .btidy _ => true | _ => false
 def Bc.who : Bc → Who | .bwait w => w | .btidy w => w | _ => .inline
 def PcB.isTidy : PcB → Bool | .tidy _ => true | _ => false
 
+/-- a cancellation was requested on the task running `co_run` of `s` and has not been delivered: whatever makes
+    that task resume next, it resumes with `CancelledError` -/
+def cancelPending (st : StB) (s : Nat) : Bool := st.a.creq s && !st.carrived s
+
+/-- same for the task running a relayed `co_shutdown()` of `s` -/
+def hcancelPending (st : StB) (s : Nat) : Bool := st.hcreq s && !st.hcarrived s
+
 /-- the relay of `s` is inside its broadcast -/
 def relayActive (st : StB) (s : Nat) : Bool := st.bc s == .bwait .relay || st.bc s == .btidy .relay
 
@@ -256,7 +263,7 @@ def stepB (c : Cfg) (st : StB) : EvB → Option StB
       | _ => none
     else none
   | .waitReturn s =>
-    if st.pcB s = .loop then
+    if st.pcB s = .loop ∧ cancelPending st s = false then
       match stepA c st.a (.waitReturn s) with
       | none => none
       | some a' => some { st with a := a' }
@@ -264,6 +271,7 @@ def stepB (c : Cfg) (st : StB) : EvB → Option StB
   | .react s =>
     match st.pcB s, st.a.rx s with
     | .loop, some D =>
+      if cancelPending st s then none else
       if critIn c st.a D then
         match stepA c st.a (.react s true (liveChildren c st.a s)) with
         | none => none
@@ -280,7 +288,8 @@ def stepB (c : Cfg) (st : StB) : EvB → Option StB
           | some a' => some { st with a := a', nbDone := setAt st.nbDone s nb }
     | _, _ => none
   | .timeoutFire s =>
-    if st.pcB s = .loop ∧ st.a.rx s = none ∧ doneSet c st.a s = [] ∧ expired (st.deadline s) st.a.now = true then
+    if st.pcB s = .loop ∧ cancelPending st s = false ∧ st.a.rx s = none ∧ doneSet c st.a s = [] ∧
+       expired (st.deadline s) st.a.now = true then
       match stepA c st.a (.leave s (liveChildren c st.a s)) with
       | none => none
       | some a' => some (exitLoop c st s .timeout a')
@@ -288,7 +297,7 @@ def stepB (c : Cfg) (st : StB) : EvB → Option StB
   | .tidyReturn s pick =>
     match st.pcB s with
     | .tidy x =>
-      if liveChildren c st.a s = [] then
+      if liveChildren c st.a s = [] ∧ cancelPending st s = false then
         if st.didSd s then
           -- `co_shutdown()` returns None at once
           finishRun c { st with sdValue := setAt st.sdValue s none } s x pick
@@ -324,7 +333,7 @@ def stepB (c : Cfg) (st : StB) : EvB → Option StB
       | _ => none
     else none
   | .sdWaitReturn s pick =>
-    if activeHandlers c st s = [] then
+    if activeHandlers c st s = [] ∧ cancelPending st s = false ∧ hcancelPending st s = false then
       match st.bc s with
       | .bwait .inline =>
         match st.pcB s with
@@ -335,7 +344,8 @@ def stepB (c : Cfg) (st : StB) : EvB → Option StB
       | _ => none
     else none
   | .sdTimeoutFire s =>
-    if (st.bc s).isWait = true ∧ activeHandlers c st s ≠ [] ∧ expired (st.hdeadline s) st.a.now = true then
+    if (st.bc s).isWait = true ∧ activeHandlers c st s ≠ [] ∧ expired (st.hdeadline s) st.a.now = true ∧
+       cancelPending st s = false ∧ hcancelPending st s = false then
       let w := (st.bc s).who
       some { st with bc := setAt st.bc s (.btidy w),
                      hcreq := fun k => st.hcreq k || decide (k ∈ activeHandlers c st s),
@@ -344,7 +354,7 @@ def stepB (c : Cfg) (st : StB) : EvB → Option StB
                             | _, _ => st.pcB }
     else none
   | .sdTidyReturn s pick =>
-    if activeHandlers c st s = [] then
+    if activeHandlers c st s = [] ∧ cancelPending st s = false ∧ hcancelPending st s = false then
       match st.bc s with
       | .btidy .inline =>
         match st.pcB s with
